@@ -46,7 +46,17 @@ func seqKindOf(v *model.V) string {
 	return "other"
 }
 
-func clean(vs ...*model.V) bool { return len(tagsOf(vs...)) == 0 }
+// clean reports that none of the values has a shape the open known findings
+// (superimposed index, sparse bytes, odd sugar tuples) make unrepresentable.
+func clean(vs ...*model.V) bool {
+	for _, tg := range tagsOf(vs...) {
+		switch tg {
+		case "superimposed", "bytes-sparse", "odd-sugar":
+			return false
+		}
+	}
+	return true
+}
 
 func genC03(t *rapid.T) (histCase, bool, []string) {
 	g := c03Cfg
